@@ -102,9 +102,41 @@ def run(ctx):
         for c in km:
             res.check(any(k.arg == "random_state" and norm(k.value) == "seed" for k in c.keywords), "R-SEEDED", ak.fi.short, norm(c), "kmeans", "k-means is not seeded with the seed argument", loc(ak.fi, c))
         hf = ctx.view("HySC.fit")
-        ac = [n for n in ast.walk(hf.fi.node) if isinstance(n, ast.Call) and isinstance(n.func, ast.Attribute) and n.func.attr == "apply_kmeans"]
-        res.check(bool(ac) and all(any(k.arg == "seed" and norm(k.value) == "self.seed" for k in c.keywords) for c in ac), "R-SEEDED", hf.fi.short, norm(ac[0]) if ac else "self.apply_kmeans(..., seed=self.seed)", "fit-seed", "fit does not hand the model's seed to k-means", loc(hf.fi, hf.fi.node))
+        units = [hf.fi] + [g for g in R.closure(ctx, hf.fi, depth=3) if g.cls is hf.fi.cls and g.qualname != hf.fi.qualname]
+        ac = [(u, n) for u in units for n in ast.walk(u.node) if isinstance(n, ast.Call) and isinstance(n.func, ast.Attribute) and n.func.attr == "apply_kmeans"]
+        if not ac:
+            res.unknown("R-SEEDED", hf.fi.short, "self.apply_kmeans(..., seed=self.seed)", "fit-seed", "no apply_kmeans call found in fit or the private methods it calls", loc(hf.fi, hf.fi.node))
+        for u, c in ac:
+            kwv = next((k.value for k in c.keywords if k.arg == "seed"), None)
+            if kwv is None:
+                pnames = [a.arg for a in ctx.require("HySC.apply_kmeans").params][1:]
+                kwv = c.args[pnames.index("seed")] if "seed" in pnames and pnames.index("seed") < len(c.args) else None
+            e = ctx.view(u).inline(kwv) if kwv is not None else None
+            good = e is not None and norm(e) in ("self.seed", "seed")
+            res.add("R-SEEDED", hf.fi.short, norm(c), "fit-seed", "ok" if good else ("violation" if kwv is None or isinstance(e, ast.Constant) else "unknown"), "" if good else "fit does not hand the model's seed to k-means", loc(u, c))
     # ---- I-ROWS
+    # ---- I-POP: the closed-form start of the elementary symmetric polynomials counts the rows that carry the dummy value.
+    #      psiOmega[0] (the plain sum) and the counts of the higher degrees have to range over the same rows.
+    with res.guard("I-POP"):
+        res.rules["I-POP"] = "the closed-form initial psiOmega counts the same rows for every degree (the count of the higher degrees ranges over the rows summed for degree 1)"
+        pv = ctx.view("HypergraphMT._initialize_psiOmega")
+        pf = pv.fi.short
+
+        def restricted(e):
+            e = pv.inline(e)
+            return any(isinstance(x, ast.Attribute) and x.attr in ("non_isolates", "isolates") for x in ast.walk(e))
+
+        combs = [n for n in walk_no_nested(pv.fi.node) if isinstance(n, ast.Call) and norm(n.func).split(".")[-1] == "comb" and n.args]
+        sums = [n for n in walk_no_nested(pv.fi.node) if isinstance(n, ast.Assign) and isinstance(n.targets[0], ast.Subscript) and norm(n.targets[0].value).endswith("psiOmega") and isinstance(n.value, ast.Call) and norm(n.value.func).split(".")[-1] == "sum"]
+        if not combs or not sums:
+            res.unknown("I-POP", pf, "comb(Nk, d + 1)", "same-rows", "closed-form initialisation idiom not recognised", loc(pv.fi, pv.fi.node))
+        else:
+            rs = {restricted(s_.value) for s_ in sums}
+            for c in combs:
+                rc = restricted(c.args[0])
+                # a count taken from the dummy matrix itself (count_nonzero / shape of the summed array) is the summed population
+                st = "ok" if rs == {rc} else "violation"
+                res.add("I-POP", pf, norm(c), "same-rows", st, "" if st == "ok" else f"degree 1 sums the dummy memberships over {'the non-isolated' if True in rs else 'all'} rows, but the higher degrees count {'only the non-isolated' if rc else 'all'} rows (`{norm(pv.inline(c.args[0]))[:80]}`): with isolated nodes the polynomials start inconsistent and the offset is carried through every incremental update", loc(pv.fi, c))
     with res.guard("I-ROWS"):
         stores = [n for n in walk_no_nested(ak.fi.node) if isinstance(n, ast.Assign) and isinstance(n.targets[0], ast.Subscript) and norm(n.targets[0].value) == "X_pred"]
         if not stores:
